@@ -26,7 +26,7 @@ RULE = ('cases = histories of 2..30 decodes in ONE process mixing well-formed, d
         'code and different words, and an entry that rejects the PEL); every step is compared with the stateless model, a sample with a fresh interpreter; the module caches are '
         'inspected after every step; plus -a vs per-file -f and -a vs -a -r; non-trivial = a step preceded by a failing or plugin-raising '
         'decode; distinct by (history prefix, bytes)')
-UD_FIX = {'x1111': ('echo',), 'x2222': ('raises', 'boom'), 'x3333': ('none',), 'x7777': ('raises_import', 'No module named frobnicate'), 'o1234': ('echo',)}
+UD_FIX = {'x1111': ('echo',), 'x2222': ('raises', 'boom'), 'x3333': ('none',), 'x7777': ('raises_import', 'No module named frobnicate'), 'x8888': ('import_raises', 'load failure'), 'o1234': ('echo',)}
 SRC_FIX = {'xsrc': ('echo',), 'o8d00': ('echo',), 'oab00': ('raises',)}
 CO_FIX = {'x': ('table_raise', {'PROC0001': ['line one'], 'PROC0002': ['second']}, 'PROCBAD!')}
 # message registry: the message of an SRC is built from that SRC's own hex words (two PELs with the same reason code and
@@ -64,7 +64,7 @@ def gen_step(rng):
                         c['fru']['pn'] = rng.choice([b'PROC0001', b'PROC0002', b'PROCBAD!', b'PROCBAD!', b'BMC0001\0'])
         else:
             sec = {'kind': k, 'hdr': apel.gen_hdr(rng), 'payload': apel.gen_payload(rng)[:200]}
-            sec['hdr']['comp'] = rng.choice([0x1111, 0x2222, 0x3333, 0x7777, 0x7777, 0x1234, 0x2000, 0x4444])
+            sec['hdr']['comp'] = rng.choice([0x1111, 0x2222, 0x3333, 0x7777, 0x7777, 0x8888, 0x1234, 0x2000, 0x4444])
             if k == 'ed':
                 sec.update(creator=ord(rng.choice('xxO')), resv1=0, resv2=0)
         secs.append(sec)
